@@ -71,6 +71,10 @@ def protocol_battery():
     for hdr_, row_ in (("A D_out Y", "1 7 X"), ("D_out", "7"), ("A E_out D", "1 X 3"), ("A D D_out E E_out", "0 1 X Z 2"), ("Y", "X")):
         b.append(Scenario("%s\n%s\n%s\n" % (hdr_, row_, row_), Sbd, default_answer=[0, 0, 0],
                           note="bidirectional signals named only by their _out column (or not at all) are still driven: header %s" % hdr_))
+    # eighth round: the consumer steps over rows (Iterator::nth, as skip / step_by do): the device sees the same calls
+    for st in (1, 2):
+        b.append(Scenario("CLK A Y\n0 1 X\n1 1 X\nC 0 1\n0 (Y) X\n1 0 X\n0 0 X\n1 1 1\n", S, default_answer=[1, 0], step=st, max_rows=6,
+                          note="rows consumed with nth(%d)" % st))
     # eighth round: a driver error on one call, iteration continued: every later call still carries exactly the row's inputs
     for k in (1, 2, 3, 4):
         b.append(Scenario("CLK A Y\n0 1 X\nC 1 X\n0 1 X\n0 0 X\n", S, default_answer=[1, 0], fail_at=[k], stop_on_err=False,
@@ -98,6 +102,8 @@ def protocol_battery():
 
 def protocol_judge_one(o, sc):
     """C02 on one observation."""
+    if getattr(sc, "step", 0):
+        return None      # consumed with nth(): judged relationally in protocol_judge (skipped rows are not printed)
     ins = input_signals(sc)
     if not o.ok("PARSE") or not o.ok("BIND"):
         return None   # not an accepted test: nothing to say
@@ -156,7 +162,31 @@ def protocol_judge_one(o, sc):
     return None
 
 
-protocol_judge = no_panic_judge(protocol_judge_one)
+_step_base_cache = {}
+
+
+def protocol_judge(obs, sc):
+    """C02; a scenario consumed with Iterator::nth (skip / step_by) is judged against the same scenario consumed row by row:
+    the device must see the very same calls (kind, inputs, flags) - stepping over a row does not change how it is sent."""
+    if getattr(sc, "step", 0):
+        from .. import replay as _rp
+        key = (sc.source, tuple(sorted(obs)))
+        if key not in _step_base_cache:
+            base = Scenario(sc.source, sc.signals, default_answer=sc.default_answer, answers=sc.answers, layout=sc.layout,
+                            override_write=sc.override_write, max_rows=sc.max_rows * (sc.step + 1) + 2)
+            _step_base_cache[key] = _rp.run(base, profiles=tuple(sorted(obs)))
+        for p, o in obs.items():
+            if o.panics:
+                return "%s build panics: %s" % (p, o.panics[0][1][:160])
+            bo = _step_base_cache[key][p]
+            got = [(c[1], c[2]) for c in o.calls]
+            want = [(c[1], c[2]) for c in bo.calls][:len(got)]
+            if got != want:
+                k = next(i for i, (a, b_) in enumerate(zip(got + [None], want + [None])) if a != b_)
+                return "%s build: consumed with nth(%d) the device sees call %d as %s, row by row it is %s (%s)" % (
+                    p, sc.step, k, got[k] if k < len(got) else None, want[k] if k < len(want) else None, sc.note)
+        return None
+    return no_panic_judge(protocol_judge_one)(obs, sc)
 
 
 # ------------------------------------------------------------------ C03 / C13 attribution and faults
@@ -393,7 +423,10 @@ def fault_judge_one(o, sc):
     return None
 
 
-fault_judge = no_panic_judge(fault_judge_one)
+def fault_judge(obs, sc):
+    if getattr(sc, "step", 0):
+        return protocol_judge(obs, sc)
+    return no_panic_judge(fault_judge_one)(obs, sc)
 
 
 # ------------------------------------------------------------------ C04 reads of device outputs
